@@ -39,7 +39,8 @@ type BarSpec struct {
 	AddBy     int       `json:"add_by"` // -1 director before clients start; k = client k adds it
 	Finish    string    `json:"finish"` // complete | abort | abortdrop | settotal | none
 	BarWidth  int       `json:"bar_width,omitempty"`
-	OnDone    bool      `json:"on_done,omitempty"` // carries on-complete / on-abort decorations (C03)
+	OnDone    bool      `json:"on_done,omitempty"`  // carries on-complete / on-abort decorations (C03)
+	FinEwma   bool      `json:"fin_ewma,omitempty"` // the completing assignment is made with EwmaSetCurrent
 }
 
 type Op struct {
@@ -171,6 +172,9 @@ func (g *gen) finishOp(b int, spec BarSpec) []Op {
 		return nil
 	}
 	if spec.Total > 0 {
+		if spec.FinEwma {
+			return []Op{{K: "ewmasetcur", B: b, N: spec.Total}}
+		}
 		return []Op{{K: "setcur", B: b, N: spec.Total}}
 	}
 	return []Op{{K: "settotal", B: b, N: 5, F: true}}
